@@ -73,9 +73,25 @@ def gen_tasks(tier, seed):
                     nf2 = dict(nf)
                     nf2[v0] = None
                     tasks.append({**base, "edges": es, "node_flow": nf2, "node_mode": True, "ignored": [v0], "kwargs": {"flow_attr_origin": "node", "weight_type": "int"}})
+    # larger hand-made DAGs for the lower-bound options only (few routes, so the route-enumeration spec stays small):
+    # one source, sinks at different depths, chains of different length into a common node, a direct skip edge
+    for name, wedges in LB_SHAPES:
+        base = {"name": name, "cls": "MinFlowDecomp", "starts": [], "ends": [], "ignored": [], "constraints": [], "edges": wedges, "no_kmodels": True}
+        for oo in ({"use_min_gen_set_lowerbound": True, "use_min_gen_set_lowerbound_partition_constraints": True},
+                   {"use_min_gen_set_lowerbound": True, "use_min_gen_set_lowerbound_partition_constraints": True, "optimize_with_greedy": False},
+                   {"use_min_gen_set_lowerbound": True}, {"use_subgraph_scanning_lowerbound": True}):
+            for wt in ("int", "float"):
+                tasks.append({**base, "subgraph_window": 3, "kwargs": {"weight_type": wt, "optimization_options": dict(oo)}})
     for i, t in enumerate(tasks):
         t["tid"] = i
     return tasks
+
+
+LB_SHAPES = [
+    ("multi_depth_sinks", [("s", "a1", 3), ("a1", "b1", 3), ("b1", "c", 3), ("s", "a2", 5), ("a2", "b2", 5), ("b2", "c", 5), ("s", "c", 1), ("c", "d1", 4), ("c", "d2", 5), ("s", "e", 8)]),
+    ("skip_and_chain", [("s", "a", 4), ("a", "b", 4), ("b", "t", 6), ("s", "b", 2), ("s", "u", 6)]),
+    ("two_depth_merge", [("s", "a", 2), ("a", "m", 2), ("s", "m", 3), ("m", "x", 1), ("m", "y", 4), ("x", "z", 1), ("s", "q", 5)]),
+]
 
 
 # --------------------------------------------------------------------------- spec side
@@ -205,7 +221,7 @@ def _run(task, res):
                                   "summary": f"{task['name']}: lower bound {lb} exceeds minimum {k_ref}",
                                   "replay": {"kind": "wrapper", "task": task, "k_ref": k_ref, "witness": wit}})
     # (b) LP_k feasible <=> Spec_k satisfiable, k = 1..k_ref+1, with the wrapper's own arguments
-    for k in range(1, min(k_ref + 1, 5) + 1):
+    for k in ([] if task.get("no_kmodels") else range(1, min(k_ref + 1, 5) + 1)):
         kt = _kfd_task(task, m, k)
         try:
             km, _ = models.construct(kt)
